@@ -9,7 +9,7 @@ import vlib
 
 def run(pid, tier, seed):
     exe = vlib.build_harness("visit", ["visit.cxx"])
-    tdir = os.path.join(vlib.BUILD, "traces")
+    tdir = vlib.trace_dir()
     os.makedirs(tdir, exist_ok=True)
     tp = os.path.join(tdir, "%s-%s.ndjson" % (pid, tier))
     vlib.record_trace(exe, ["zoo"], tp)
